@@ -128,49 +128,56 @@ def run_case(ctx, rep, case, base, model_ok):
         def uuid_num(u):
             return uuids.get(u, f"?{u[:6]}")
 
-        S = sched.Sched(sched.random_chooser(rng, 0.5), watchdog_s=40)
+        S = sched.Sched(case["chooser"](rng, env) if case.get("chooser") else sched.random_chooser(rng, 0.5), watchdog_s=40)
         handles = {}
 
         def mk(ai, kind):
             def fn():
-                from datashard import Schema, create_table, load_table
                 from datashard.transaction import Table
-                orig_init = Table.__init__
-
-                def patched(self, *a, **k):
-                    # instrument as soon as the storage exists (before MetadataManager touches it)
-                    import datashard.storage_backend as sb
-                    oc = sb.create_storage_backend
-
-                    def wrapped(tp):
-                        st = oc(tp)
-                        vstore.instrument_storage(st, S)
-                        return st
-                    sb.create_storage_backend = wrapped
-                    try:
-                        orig_init(self, *a, **k)
-                    finally:
-                        sb.create_storage_backend = oc
+                # the REAL constructor; storage and lock are instrumented by the patches installed around S.run below
                 if kind == "open":
-                    t = Table.__new__(Table)
-                    _init_instrumented(t, loc, False, None, S)
+                    t = Table(loc, create_if_not_exists=False)
                     if t.metadata_manager.refresh() is None:
                         raise ValueError("No Iceberg table found")
                 else:
-                    t = Table.__new__(Table)
-                    _init_instrumented(t, loc, True, tablekit.schema(), S)
+                    t = Table(loc, create_if_not_exists=True, schema=tablekit.schema())
                 handles[ai] = t
+                md_ = t.metadata_manager.refresh()
+                at_return[ai] = md_.table_uuid if md_ else None
                 if kind == "append":
                     t.append_records(tablekit.rows(1, start=1000 * ai, tag=f"a{ai}_"))
                 return t
             return fn
 
+        at_return = {}
+        import datashard.storage_backend as sb
+        from datashard.metadata_manager import MetadataManager
+        oc, omi = sb.create_storage_backend, MetadataManager.__init__
+
+        def wrapped_csb(tp):
+            st = oc(tp)
+            if S.actor() is not None:
+                vstore.instrument_storage(st, S)
+            return st
+
+        def mm_init(self, *a_, **k_):
+            omi(self, *a_, **k_)
+            if S.actor() is not None:
+                class _T:
+                    pass
+                shim = _T()
+                shim.storage = type("S", (), {})()
+                shim.metadata_manager = self
+                vstore.instrument_table(shim, S, shared_rlock=False)
+        sb.create_storage_backend = wrapped_csb
+        MetadataManager.__init__ = mm_init
         restore = c01._patch_sleep(S)
         try:
             with c01._NoBackoff(S):
                 res = S.run({ai + 1: mk(ai + 1, k) for ai, k in enumerate(actors)})
         finally:
             restore()
+            sb.create_storage_backend, MetadataManager.__init__ = oc, omi
         rep.evaluations += 1
         rep.distribution[f"{backend}/{init_state}"] += 1
         # uuid numbering: a creator's own v0 carries a fresh uuid -> number it by the actor that wrote it
@@ -182,12 +189,12 @@ def run_case(ctx, rep, case, base, model_ok):
         case_rec = {"kind": "create-race", "backend": backend, "initial": init_state, "actors": actors, "schedule": list(S.schedule)}
         rep.nontrivial(["c18", backend, init_state, actors, S.schedule])
         # ---- correspondence
-        if model_ok:
+        if model_ok and not case.get("no_model"):
             # only the Table.__init__ part of each actor is abstracted; a first appender's commit is C01's business
             evs = S.events
             toks = _abstract(evs, names, uuid_num)
             creators = ",".join(str(i + 1) for i, k in enumerate(actors) if k != "open")
-            cfg = "cas=0 excl=1" if backend == "local" else "cas=1 excl=1"
+            cfg = "cas=0 excl=1" if backend == "local" else ("cas=1 excl=0" if case.get("lock_may_lapse") else "cas=1 excl=1")
             req = f"create.trace {cfg} files={','.join(files_tok) or '-'} hint={hint_tok} creators={creators or '-'} | " + " ".join(toks)
             reply = driver.ask([req])[0]
             rep.corr_cases += 1
@@ -207,6 +214,9 @@ def run_case(ctx, rep, case, base, model_ok):
         problems = []
         if len(ok_uuids) > 1:
             problems.append(f"callers ended up on different tables: {len(ok_uuids)} identities")
+        for ai_, u_ in at_return.items():
+            if u_ is not None and ok_uuids and u_ not in ok_uuids:
+                problems.append(f"the table caller {ai_} was handed was replaced afterwards by another initialisation")
         if orig_uuid and ok_uuids and ok_uuids != {orig_uuid}:
             problems.append("the identity of the existing table was replaced")
         for ai, k in enumerate(actors):
@@ -298,9 +308,40 @@ def _schema_semantics(ctx, rep, base):
         rep.violate("C18:persisted-schema-replaced", "create_table on an existing table replaced its schema", {"kind": "schema"})
 
 
+def _preempt_before(what_prefix, age_lock=False):
+    """creator 1 runs until its NEXT gated operation starts with `what_prefix` (it is pre-empted there, optionally for longer than the
+    lock lease); caller 2 (create + first append) then runs completely; then creator 1 resumes"""
+    def mk(rng, env=None):
+        st = {"handed": False}
+
+        def choose(s, ready):
+            if not st["handed"]:
+                w = ready.get(1)
+                if w is not None and not str(w).startswith(what_prefix):
+                    return 1
+                if w is not None:
+                    st["handed"] = True
+                    if age_lock and env is not None:
+                        import datetime as _dt
+                        for k_, o_ in env.fake.objects.items():
+                            if k_.endswith(".locks/metadata.lock"):
+                                o_.mtime = o_.mtime - _dt.timedelta(seconds=120)
+            if 2 in ready:
+                return 2
+            return sorted(ready)[0]
+        return choose
+    return mk
+
+
 def cases(ctx):
     rng = ctx.rng("cases")
     out = []
+    # a creator pre-empted right before it takes the lock / right before it writes the pointer (beyond the lease on S3)
+    for backend in ("local", "s3cas"):
+        for pre, age in (("lock.", False), ("write_file hint", False), ("write_file_cas hint", True), ("write_file meta", True)):
+            out.append({"backend": backend, "initial": "absent", "actors": ["create", "append"], "chooser": _preempt_before(pre, age), "no_model": True})
+            out.append({"backend": backend, "initial": "absent", "actors": ["create", "create"], "chooser": _preempt_before(pre, age),
+                        "lock_may_lapse": age})
     for backend in ("local", "s3cas"):
         for initial in ("absent", "healthy", "pointer-lost", "v0-without-pointer"):
             out.append({"backend": backend, "initial": initial, "actors": ["create", "create"]})
